@@ -923,6 +923,14 @@ def register(I):
         arr, lo, hi = as_list(a[0])
         return VecV([clone_value(x) for x in arr[lo:hi]])
 
+    @intr("std::bool::<impl bool>::then_some")
+    def _then_some(I, a, cc):
+        return some(a[1]) if I.truth(a[0], "then_some") else none()
+
+    @intr("std::bool::<impl bool>::then")
+    def _then(I, a, cc):
+        return some(I.call_value(a[1], [], cc.frame)) if I.truth(a[0], "then") else none()
+
     @intr("std::intrinsics::discriminant_value", "std::intrinsics::discriminant_value", "std::mem::discriminant")
     def _discr(I, a, cc):
         return deref(a[0]).d
